@@ -81,11 +81,20 @@ CLAIMED["C16"] = ("ovf-system", "exploration",
   "Trusted: /proc socket tables; the reference implementation as the definition of 'documented algorithm and key'. Exit status 0 after a logged error counts as a refusal. VMess with a cipher name outside its README column is not asserted.", "DESIGN.md 5/C16")
 
 CLAIMED["C09"] = ("ovf-codec", "exploration",
-  "differential stress testing: operations that succeed alone are re-run by 2..16 barrier-released threads on the shared state (process-wide cipher cache, per-server salt cache, shared contexts) and must give the same per-operation results; K concurrently presented identical handshakes must yield exactly one acceptance; end-to-end runs of 8..64 concurrent scripted flows plus UDP histories through the real binaries",
-  "udp-codec-stress: every thread owns a client UDP session codec and a server codec (all Shadowsocks ciphers, with and without users) and performs request/reply exchanges whose plaintext, address and acceptance must equal the run-alone result, while all threads hammer the process-wide cipher cache. tcp-shared-context: threads run whole request/response round trips with codecs cloned from one shared client context and one shared server context (all protocols). concurrent-replay: K threads present the same valid 2022 request to one server context through a barrier; exactly one acceptance. many-flows: 8..32 (quick) / 16..64 (thorough) concurrent generated TCP flows with per-flow keystreams on 2..16 worker threads through one client/server pair, and generated UDP histories of 4 applications x 3 targets; every flow must be byte-exact and every datagram owned correctly. Exploration of the interleavings the machine produces; the harness does not own the schedule and no sanitizer build is used.",
+  "differential stress testing: operations that succeed alone are re-run by 2..16 barrier-released threads on the shared state (process-wide cipher cache, per-server salt cache, shared contexts) and must give the same per-operation results; harness-owned interleavings (proptest-generated schedules advance several TCP flows and UDP sessions one codec call at a time on one shared context, reproducible and shrinkable, each deviating session re-run alone); K concurrently presented identical handshakes must yield exactly one acceptance; end-to-end runs of 8..64 concurrent scripted flows plus UDP histories through the real binaries",
+  "udp-codec-stress: every thread owns a client UDP session codec and a server codec (all Shadowsocks ciphers, with and without users) and performs request/reply exchanges whose plaintext, address and acceptance must equal the run-alone result, while all threads hammer the process-wide cipher cache. tcp-shared-context: threads run whole request/response round trips with codecs cloned from one shared client context and one shared server context (all protocols). interleaved-steps: 2..6 (quick) / 2..10 (thorough) TCP flows and Shadowsocks UDP sessions of generated users share one server context, one datagram codec and per user one client context; a generated schedule decides which session makes the next call (client encodes a write, server reads a generated segment, server encodes an answer, client reads a segment); each session must observe exactly its own target, upload and answer, and a session that deviates is re-run alone with the same calls before the deviation is attributed to sharing. concurrent-replay: K threads present the same valid 2022 request to one server context through a barrier; exactly one acceptance. many-flows: 8..32 (quick) / 16..64 (thorough) concurrent generated TCP flows with per-flow keystreams on 2..16 worker threads through one client/server pair, and generated UDP histories of 4 applications x 3 targets; every flow must be byte-exact and every datagram owned correctly. The thread-level sub-checks explore the interleavings the machine produces (the harness does not own the thread schedule; no sanitizer build is used); interleaved-steps owns the order of codec calls but not what happens inside one call.",
   "Trusted: Instant timestamps only label overlap, never decide; the oracles of C01/C02/C10 are reused for the system and replay parts.", "DESIGN.md 5/C09, 9.4")
 
 PENDING = {}
+
+# sub-checks that are also libFuzzer targets (harness/src/props/mod.rs fuzz_plans)
+FUZZ = {
+ "C02": "dgram-cuts", "C03": "tcp-impl-to-ref, tcp-ref-to-impl, udp-ss, udp-in-stream", "C04": "seg-cuts, dgram-cuts",
+ "C05": "stream-tamper, reflect-splice, dgram-tamper", "C06": "no-credential, user-separation, raw decoder input",
+ "C07": "raw-bytes, sealed-malformed, http-target-strings, raw decoder input", "C10": "handshake-fields, replay-history",
+ "C11": "filter-model, client-reply-sessions", "C12": "tcp-history, udp-history", "C13": "http-target",
+ "C14": "codec-roundtrip, accepted-address-transmission",
+}
 
 def main():
     props = [json.loads(l) for l in open('/verif/properties.jsonl')]
@@ -97,6 +106,9 @@ def main():
         i = p['id']
         if i in CLAIMED:
             eng, cat, tech, text, note, ref = CLAIMED[i]
+            if i in FUZZ:
+                tech += "; coverage-guided tier: libFuzzer (AddressSanitizer, debug assertions, overflow checks) drives the same generators and oracles through a byte-stream bridge (" + FUZZ[i] + "), fixed-run campaigns in the thorough tier, committed corpus replayed in every run"
+                text += " Coverage-guided tier (thorough): the fuzzer's bytes are the random stream of the sub-check's own proptest strategy (vendored proptest, PassThrough generator), so every libFuzzer input is a generated case judged by the same oracle; a failing input is shrunk through the strategy and reported with a replay file; time-outs / out-of-memory end the run as inconclusive (exit 2)."
             checks.append({
                 "property_id": i,
                 "quick_cmd": f"./run.sh {i} quick",
@@ -125,6 +137,8 @@ def main():
              "kind_free_text": "in-process property-based testing (proptest) of the real Encoder/Decoder objects, framed adapters, handshake code and packet filter against an independent reference implementation and explicit models"},
             {"name": "ovf-system", "path": "/verif/harness", "serves_properties": ["C01","C02","C08","C09","C11","C12","C15","C16"],
              "kind_free_text": "generated scenarios against the real client/server binaries over loopback with scripted applications, targets, reference peers and injected faults"},
+            {"name": "ovf-fuzz", "path": "/verif/fuzz", "serves_properties": sorted(FUZZ.keys()),
+             "kind_free_text": "cargo-fuzz / libFuzzer targets (nightly, AddressSanitizer, debug assertions): fz_sub decodes the fuzzer's bytes into a case of one in-process sub-check through that sub-check's own proptest strategy and runs its oracle; fz_raw feeds raw bytes to every network-facing decoder; campaigns run in the thorough tier, corpora under /verif/corpus are replayed in every run"},
         ],
         "checks": checks,
         "not_applicable": na,
